@@ -134,11 +134,28 @@ def clause_violations(shape_text, ux, uy):
         if xm != -x or ym != y:
             bad.add("g")
             break
+    # (e') a sub-tree handed to layout() is a tree too: bounds must be its own bounding box, y relative to it
+    rootS, nodesS = S.build(shape, make_plain())
+    for sub in (rootS.left, rootS.right):
+        if sub is None:
+            continue
+        try:
+            ms = TreeLayout().layout(sub, ux, uy)
+        except Exception as e:
+            bad.add("e-subtree")
+            info["subtree_error"] = repr(e)[:200]
+            continue
+        pts = [(n.x, n.y) for n, _ in S.naive(sub, "preorder")]
+        xs2, ys2 = [p[0] for p in pts], [p[1] for p in pts]
+        if (ms.minX, ms.maxX, ms.minY, ms.maxY) != (min(xs2), max(xs2), min(ys2), max(ys2)) or ms.width != max(xs2) - min(xs2) or ms.height != max(ys2) - min(ys2) or ms.centerX != min(xs2) + (max(xs2) - min(xs2)) / 2 or ms.centerY != min(ys2) + (max(ys2) - min(ys2)) / 2:
+            bad.add("e-subtree")
+        if any(y != d * uy for (_, y), (_, d) in zip(pts, S.naive(sub, "preorder"))):
+            bad.add("a-subtree")
     info["coords"] = c1[:12]
     return bad, info
 
 
-STRICT = {"a", "c", "e", "f-repeat", "f-fresh", "f-units", "raised"}
+STRICT = {"a", "c", "e", "f-repeat", "f-fresh", "f-units", "raised", "e-subtree", "a-subtree"}
 
 
 def in_enumerated_domain(shape):
